@@ -58,6 +58,10 @@ def cases(tier, seed):
                    'family': '1d' if i % 2 == 0 else '2d', 'mask_mode': modes[i % len(modes)],
                    'fold': (i // 2) % 2 == 1, 'time_mode': ['zero', 'adv', 'pattern'][i % 3],
                    'seed': seed * 104729 + 13 + i})
+    # a layer invoked twice in two different width-sharing groups; pad modules per call site / shared
+    for i, c in enumerate(pitgen.special_cases(48 if tier == 'quick' else 960, seed, {'kind': 'random'})):
+        cs.append(dict(c, mask_mode=modes[i % len(modes)], fold=(i // 2) % 2 == 1,
+                       time_mode=['zero', 'adv', 'pattern'][i % 3]))
     # the repository's own PIT tests (incl. the optimiser-driven searches) under the in-situ
     # features-mask / time-mask contracts
     from vf import suitewl
@@ -171,8 +175,12 @@ def run_case(case, ctx):
         ctx.sample({'kind': 'sweep', 'K': K, 'd': d, 'beta': beta, 'gamma': gamma,
                     'summary_tc': summ.get('tc')})
         return
-    prog = pitgen.gen_valid_program(random.Random(case['prog_seed']), family=case['family'],
-                                    opts={'p_fixed_stem': 0.15, 'allow_fixed': True})
+    if case.get('special'):
+        prog = pitgen.special_program(random.Random(case['prog_seed']), case['family'],
+                                      case['special'], case.get('delay', 0))
+    else:
+        prog = pitgen.gen_valid_program(random.Random(case['prog_seed']), family=case['family'],
+                                        opts={'p_fixed_stem': 0.15, 'allow_fixed': True})
     # the same network returning its output as y, (y,), [y] or {'logits': y}
     oc = [None, None, 'tuple1', None, 'list1', None, 'dict1', None][(case['prog_seed'] // 2) % 8]
     if oc:
